@@ -52,8 +52,16 @@ Diffs(e, o, engAfter) ==
       \cup (IF e.cur # o.cur THEN {"cur"} ELSE {})
 
 \* clause ownership: (clause, branches of the step) -> owning properties
+\* (for the autonomous variant everything is C13's; what C02-C04 say about every StateMachine - arguments, timing of
+\*  expiry, stopping - is theirs as well)
 Owner(clause, branches) ==
-    IF sh.auto THEN {"C13"} ELSE
+    IF sh.auto
+    THEN {"C13"} \cup (CASE clause \in {"tm", "ic"} -> {"C03"}
+                         [] clause = "stm" -> {"C02", "C03"}
+                         [] clause \in {"done", "exec", "cur"} -> {"C04"}
+                         [] clause = "names" /\ branches \cap {"ExpireNext", "ExpireLastStop"} # {} -> {"C02"}
+                         [] OTHER -> {})
+    ELSE
     CASE clause = "names" ->
             IF branches \cap {"ExpireNext", "ExpireLastCycle", "ExpireLastStop"} # {} THEN {"C02"}
             ELSE IF "Start" \in branches THEN {"C04", "C01"} ELSE {"C01"}
